@@ -456,7 +456,12 @@ impl Check for DiffCheck {
         let canonical = SimConfig { policy: Policy::Canonical, noisy: false, max_steps: 400_000, default_partitions: 4, keep_events: 0 };
         let ref_sim = if self.mode == DiffMode::Optimizer { v.scenario.sim.clone() } else { canonical };
         let mut out = Vec::new();
+        // every candidate costs a reference run: bound the round by wall clock
+        let t0 = std::time::Instant::now();
         let mut push = |a: DiffAux| {
+            if t0.elapsed().as_secs() >= 6 {
+                return;
+            }
             let mut c = v.clone();
             c.aux = Some(Arc::new(a.clone()));
             if let Some(c2) = rehome_candidate(&c, &a, &ref_sim) {
